@@ -12,7 +12,7 @@
 (*              observables of the session for every approved set, as      *)
 (*              JSON cases that the harness replays into the real code.    *)
 (***************************************************************************)
-EXTENDS ISCore, Json, IOUtils, SequencesExt, FiniteSetsExt
+EXTENDS ISDrivers, Json, IOUtils, SequencesExt, FiniteSetsExt
 
 CONSTANTS NAtoms,      \* atoms 0..NAtoms-1
           Keys,        \* dict keys
@@ -199,6 +199,8 @@ FinalAll(s, fuel) == LET P == AllPending(Run(s, prog, {})) IN
 \* comparisons depends on what is approved; exempt exactly when some assert of the program can fail
 CanAbort == \E t \in DOMAIN prog : \E j \in DOMAIN prog[t] : prog[t][j].assert
 C09 == (AbortOK \/ ~CanAbort) => Finals(srcs, Fuel) = {FinalAll(srcs, Fuel)}
+(* C19: the public testing helpers and the plugin are the same session *)
+C19 == DriversAgree(srcs, prog)
 (* C14: sites are independent: the outcome for a site only depends on the statements of that site
    that were executed *)
 Proj(R, i) == [t \in DOMAIN prog |-> SelectSeq([j \in 1..Len(R.tests[t].res) |-> prog[t][j]], LAMBDA s : s.site = i)]
